@@ -76,6 +76,7 @@ class Sholl:
         return np.count_nonzero(intersections, axis=1)
 
     def intersect(self, r: float) -> int:
+        r = np.float64(r)  # a bare python float would be compared at float32 precision
         return np.count_nonzero(
             np.logical_or(
                 np.logical_and(self.rs[:, 0] <= r, self.rs[:, 1] > r),
